@@ -3,6 +3,7 @@
 (* message shape; plain fallback without keys) and C06 direction 2 (reference-built protected datagrams with every *)
 (* legal pad length, pad contents and IV contents must be accepted and decoded to the message).                    *)
 EXTENDS SKLife, Pools
+CONSTANT OnlySeq     \* TRUE: print only the long single-object sequences, attributed to C17 (state carried across operations)
 VARIABLES stage, su, role, mi, variant
 
 SuiteSeq == << Suite(128, "md5", "sha1"), Suite(192, "md5", "md5"), Suite(256, "md5", "sha256"),
@@ -76,19 +77,41 @@ InnerVector(s, r, j) ==
                   CASE c.cls = "accept" -> AcceptExp(InnerBase) [] c.cls = "reject" -> [panic |-> FALSE, capdiff |-> FALSE, err |-> TRUE]
                     [] OTHER -> [panic |-> FALSE, capdiff |-> FALSE]) >>)
 
-NVariants == 9 + 16 + NInner
+\* ---- messages whose protected form fits the 16-bit payload length only with (near-)minimal padding: inner chains of
+\* 65472..65487 octets.  Protection may legally refuse them if it pads more; if it produces a datagram, the peer must accept it.
+BigInner(j) == Msg(3, << [k |-> "V", data |-> D(65464 + j, 6)] >>)          \* inner chain = 65468 + j octets, j in 4..19
+BigVector(s, r, j) ==
+  LET m == BigInner(j) IN
+  Vector("sk_big", <<
+    SaNew("S", s, KeysOf(s, 1)), SaNew("R", s, KeysOf(s, 1)),
+    Step("protect", "C01", FALSE, [sa |-> "S", role |-> r, msg |-> m, rand |-> "system"], [panic |-> FALSE]),
+    OptStep(UnprotectStep("C01", "R", ~r, Ref(3, "wire"), IF j % 2 = 0 THEN "nil" ELSE "pre", AcceptExp(m))) >>)
+
+\* ---- many messages protected on ONE long-lived object in one role (sizes vary so that pad lengths vary), each accepted by the peer
+SeqMsg(i) == Msg((i % 5) + 1, << [k |-> "NONCE", data |-> D((i * 7) % 23, i)], Rep("N") >>)
+SeqVector(s, r, n) ==
+  LET pp == IF OnlySeq THEN "C17" ELSE "C06" pu == IF OnlySeq THEN "C17" ELSE "C01" IN
+  Vector("sk_sequence", << SaNew("S", s, KeysOf(s, 1)), SaNew("R", s, KeysOf(s, 1)) >> \o
+    [i \in 1..(2 * n) |->
+       IF i % 2 = 1 THEN ProtectStep(pp, "S", r, SeqMsg((i + 1) \div 2), "system")
+       ELSE UnprotectStep(pu, "R", ~r, Ref(i + 1, "wire"), "nil", AcceptExp(SeqMsg(i \div 2)))])
+
+NVariants == 9 + 16 + NInner + 16 + 1
 Init == stage = 0 /\ su = 0 /\ role = TRUE /\ mi = 0 /\ variant = 0
 Next ==
   \/ stage = 0 /\ stage' = 1 /\ su' \in 1..9 /\ role' \in BOOLEAN /\ UNCHANGED << mi, variant >>
   \/ stage = 1 /\ stage' = 2 /\ mi' \in 1..NShapes /\ UNCHANGED << su, role, variant >>
   \/ stage = 2 /\ stage' = 3 /\ UNCHANGED << su, role, mi >>
      /\ variant' \in { v \in 1..NVariants :
+                         IF OnlySeq THEN v = NVariants /\ mi = 1 ELSE
                          \* quick tier: thin out the product, every suite x role still meets every shape and every variant class
                          \/ Thorough
                          \/ (v <= 8 /\ (v + mi + su) % 4 = 0)
                          \/ (v = 9 /\ su = 1)
                          \/ (v >= 10 /\ v <= 25 /\ mi <= 6 /\ (v + mi + su) % 4 = 0)
-                         \/ (v > 25 /\ mi = 1 /\ (v + su) % 3 = 0) }
+                         \/ (v > 25 /\ v <= 25 + NInner /\ mi = 1 /\ (v + su) % 3 = 0)
+                         \/ (v > 25 + NInner /\ v <= 25 + NInner + 16 /\ mi = 1 /\ (v + su) % 8 = 0)
+                         \/ (v = 25 + NInner + 17 /\ mi = 1) }
      /\ (variant' > 25 => mi = 1)
      /\ (variant' >= 10 /\ variant' <= 25 => Len(EncChain(NormChain(M(mi).payloads))) < 4000)
   \/ stage = 3 /\ UNCHANGED << stage, su, role, mi, variant >>
@@ -96,7 +119,9 @@ Next ==
 Vec == IF variant <= 8 THEN RoundTripVector(SuiteSeq[su], role, M(mi), variant)
        ELSE IF variant = 9 THEN FallbackVector(M(mi))
        ELSE IF variant <= 25 THEN RefVector(SuiteSeq[su], role, M(mi), variant - 9)
-       ELSE InnerVector(SuiteSeq[su], role, variant - 25)
+       ELSE IF variant <= 25 + NInner THEN InnerVector(SuiteSeq[su], role, variant - 25)
+       ELSE IF variant <= 25 + NInner + 16 THEN BigVector(SuiteSeq[su], role, variant - 25 - NInner + 3)
+       ELSE SeqVector(SuiteSeq[su], role, IF Thorough THEN (IF OnlySeq THEN 150 ELSE 60) ELSE (IF OnlySeq THEN 40 ELSE 24))
 Emit == stage = 3 => PrintT(ToJson(Vec))
-Sound == stage = 3 => Encodable(M(mi)) /\ FitsProtected(M(mi), SuiteSeq[su])
+Sound == stage = 3 /\ variant <= 25 => Encodable(M(mi)) /\ FitsProtected(M(mi), SuiteSeq[su])
 =============================================================================
